@@ -499,7 +499,7 @@ def x_strip_state(ctx):
     return res
 
 
-@rule("X-STRIP-GATE", ["C14", "C13"], floor=4)
+@rule("X-STRIP-GATE", ["C14", "C13", "C03"], floor=5)
 def x_strip_gate(ctx):
     """The stripping loop runs iff flag x is set and flag q is not, before the parser; its output replaces
     self.pattern together with self.len and is what ReProgram receives."""
@@ -536,15 +536,24 @@ def x_strip_gate(ctx):
             out.append(ok("before-parser"))
     # the stripped text is stored to self.pattern with self.len = its length, and ReProgram::new receives self.pattern
     w = ctx.walk(b, start_bb=h)
-    good = False
+    n_store = n_prog = 0
+    bad_store = bad_prog = None
     for p in w.paths:
+        if p.end.startswith("loop"):
+            continue
         st = [(strip_ver(show(e[1])), strip_ver(render(e[2]))) for e in p.effects if e[0] == "store"]
         sd = dict(st)
-        if "a1.pattern" in sd and sd.get("a1.len") == "len(%s)" % sd["a1.pattern"] and sd["a1.pattern"].startswith("uninit("):
-            rp = [e for e in p.effects if e[0] == "call" and e[1] == "ReProgram::new"]
-            if not rp or strip_ver(render(rp[0][2][0])) == sd["a1.pattern"]:
-                good = True
-    out.append(ok("stores-pattern-and-len") if good else bad("stores-pattern-and-len", "after stripping, self.pattern and self.len must both be replaced (len = new pattern length) and the program must be built from the stripped text", b.loc(h)))
+        n_store += 1
+        if not ("a1.pattern" in sd and sd.get("a1.len") == "len(%s)" % sd["a1.pattern"] and sd["a1.pattern"].startswith("uninit(")):
+            bad_store = sd
+            continue
+        for e in p.effects:
+            if e[0] == "call" and e[1] == "ReProgram::new":
+                n_prog += 1
+                if strip_ver(render(e[2][0])) != sd["a1.pattern"]:
+                    bad_prog = strip_ver(render(e[2][0]))
+    out.append(ok("stores-pattern-and-len") if n_store and bad_store is None else bad("stores-pattern-and-len", "after stripping, self.pattern and self.len must both be replaced (len = new pattern length); stores %s" % bad_store, b.loc(h)))
+    out.append(ok("program-gets-stripped-pattern") if n_prog and bad_prog is None else bad("program-gets-stripped-pattern", "ReProgram::new must receive the stripped pattern (analyze rebuilds the group nesting from program.pattern); it receives %s" % bad_prog, b.loc(h)))
     return out
 
 
